@@ -206,7 +206,7 @@ Proof. intros P H p Hin. rewrite forallb_forall in H. apply H. exact Hin. Qed.
 Ltac crun_lazy :=
   unfold crun;
   lazy -[Z.ltb Z.leb Z.gtb Z.geb Z.eqb Z.max Qle_bool Qeq_bool inject_Z existsb adjacent_ge dnan dlt dle dgt dge d0 d1
-         is_16 Z.of_nat length nth Z.to_nat cal_at negb orb andb olist apply_a_rows xadjacent_ge xfreq_ok xsigma_pos xsigma_nonneg
+         is_16 Z.of_nat length nth Z.to_nat cal_at negb orb andb olist apply_a_rows dvec_differs xvec_differs xadjacent_ge xfreq_ok xsigma_pos xsigma_nonneg
          xle xlt xnan xinf x0];
   rewrite ?Z.eqb_refl; cbn [negb orb andb].
 Ltac batoms :=
@@ -293,12 +293,14 @@ Proof.
     repeat (destruct Hin as [Hin|Hin]; [subst e; reflexivity|]); destruct Hin.
 Qed.
 
-(* vnacal_new_set_frequency_vector *)
-Lemma set_fv_contract_l : forall s fv rb,
-  crun (env_set_fv HOk s fv rb) gen_contract_vnacal_new_set_frequency_vector = lift (check_set_fv s fv rb).
+(* vnacal_new_set_frequency_vector: check_set_fv of NewModel.v, then - when the C text has it (fix DM90) - the test that the
+   frequencies do not change under a measurement error model *)
+Lemma set_fv_contract_l : forall s inforce fv rb,
+  crun (env_set_fv HOk s inforce fv rb) gen_contract_vnacal_new_set_frequency_vector =
+  lift (check_set_fv2 gen_fv_tests_m_error s inforce fv rb).
 Proof.
-  intros s fv rb. destruct fv as [l|]; [|reflexivity].
-  crun_lazy. unfold check_set_fv, usage1. rewrite ?Z.gtb_ltb. bools.
+  intros s inforce fv rb. destruct fv as [l|]; [|reflexivity].
+  crun_lazy. unfold check_set_fv2, check_set_fv, gen_fv_tests_m_error, usage1. rewrite ?Z.gtb_ltb. cbn [andb]. bools.
 Qed.
 
 (* vnacal_new_solve: the only argument test is "the frequency vector was given"; NULL is the only handle test *)
@@ -423,7 +425,7 @@ Proof. intros s c s' v r H. unfold n2_step in H. eapply srun_refused_unchanged_l
 
 Ltac srun_lazy :=
   unfold n2_step, n2_contract, n2_env, n2_work, n2_exit;
-  lazy -[Z.ltb Z.leb Z.gtb Z.geb Z.eqb Z.max Qle_bool Qeq_bool inject_Z existsb adjacent_ge dnan dlt dle dgt dge d0 d1
+  lazy -[Z.ltb Z.leb Z.gtb Z.geb Z.eqb Z.max Qle_bool Qeq_bool inject_Z existsb adjacent_ge dnan dlt dle dgt dge d0 d1 dvec_differs
          is_16 Z.of_nat length nth Z.to_nat cal_at negb orb andb olist n2_inv];
   rewrite ?Z.eqb_refl; cbn [negb orb andb].
 
@@ -439,7 +441,7 @@ Proof.
   destruct (n2_step s c) as [s' res] eqn:E. simpl.
   destruct res as [| |v r|v].
   3: { apply n2_refused_unchanged_l in E. subst. exact Hinv. }
-  all: revert E; destruct s as [[t rw cl fr fvd me pa] pt et it pv];
+  all: revert E; destruct s as [[t rw cl fr fvd me pa] pt et it pv fvf];
     destruct c as [h fv rb|h|h a|h x|h x|h n|h x|h fails]; destruct h;
     try (destruct x as [q|]); try (destruct a as [n fv nf tr narrow s16]; destruct nf, tr, fv);
     srun_lazy; rewrite ?Z.gtb_ltb, ?Qeq_bool_refl; cbn [negb orb andb]; ifs_eqn; intro E; inversion E; subst; try exact Hinv;
@@ -476,7 +478,7 @@ Proof.
 Qed.
 
 Example n2_history_satisfiable :
-  let s0 := mkn2 (mknsum 0 2 2 3 false false (mknew [] 0 0 0 None)) (Some (1 # 1000000)) (Some (1 # 1000000)) 30 (Some (1 # 1000)) in
+  let s0 := mkn2 (mknsum 0 2 2 3 false false (mknew [] 0 0 0 None)) (Some (1 # 1000000)) (Some (1 # 1000000)) 30 (Some (1 # 1000)) [] in
   n2_inv s0 /\
   snd (n2_step s0 (N2SetPvalue HOk (Some 2%Q))) = RRefused VM1 (Via USAGE) /\
   snd (n2_step s0 (N2SetMError HOk (mkmerrx 1 None (Some [XFin 1%Q]) None false false))) = RRefused VM1 (Via USAGE) /\
@@ -729,3 +731,14 @@ Proof.
   apply andb_true_iff in F. destruct F as [F1 F2]. apply category_eqb_eq in F1. apply category_eqb_eq in F2. subst c1 c2.
   destruct einval; simpl; rewrite run_effects_paths; reflexivity.
 Qed.
+
+(* the settings machine with an error model set: the vector in force is accepted again, another one is refused and leaves the
+   state (when the C text has the test of fix DM90) *)
+Lemma n2_fv_under_model_l :
+  gen_fv_tests_m_error = true ->
+  let v := [Some 1%Q; Some 2%Q; Some 3%Q] in
+  let s := mkn2 (mknsum 0 2 2 3 true true (mknew [] 0 0 0 None)) (Some (1 # 1000000)) (Some (1 # 1000000)) 30 (Some (1 # 1000)) v in
+  n2_step s (N2SetFv HOk (Some [Some 1%Q; Some 2%Q; Some 4%Q]) false) = (s, RRefused VM1 (Via USAGE)) /\
+  n2_step s (N2SetFv HOk (Some v) false) = (s, RPass) /\
+  snd (n2_step (with_sum s (set_merror false)) (N2SetFv HOk (Some [Some 1%Q; Some 2%Q; Some 4%Q]) false)) = RPass.
+Proof. intro H. first [discriminate H | (vm_compute; repeat split; reflexivity)]. Qed.
